@@ -1099,6 +1099,40 @@ func closesOnNonKafka(fd *ast.FuncDecl, shortBuffer bool) bool {
 	return good == 1 && closes == 1
 }
 
+// loadVersionsStrict: in (*Conn).loadVersions the statement that follows `x, err := recv.ApiVersions()` is
+// `if err != nil { return … }` — the bare test, no further condition — so nothing that came with an error (a version
+// list next to a broker error code) reaches the code that builds and stores the Conn's version map.
+func loadVersionsStrict(fd *ast.FuncDecl) bool {
+	if fd == nil {
+		return false
+	}
+	for i, st := range fd.Body.List {
+		as, ok := st.(*ast.AssignStmt)
+		if !ok || len(as.Rhs) != 1 || len(as.Lhs) != 2 || !containsCall(as.Rhs[0], "ApiVersions") {
+			continue
+		}
+		errName := exprString(as.Lhs[1])
+		if i+1 >= len(fd.Body.List) {
+			return false
+		}
+		is, ok := fd.Body.List[i+1].(*ast.IfStmt)
+		if !ok || is.Init != nil || is.Else != nil {
+			return false
+		}
+		be, ok := is.Cond.(*ast.BinaryExpr)
+		if !ok || be.Op != token.NEQ || exprString(be.X) != errName || exprString(be.Y) != "nil" {
+			return false
+		}
+		n := len(is.Body.List)
+		if n == 0 {
+			return false
+		}
+		_, isRet := is.Body.List[n-1].(*ast.ReturnStmt)
+		return isRet && !containsCall(is.Body, "Store")
+	}
+	return false
+}
+
 // batchCloseMindsDiscard: in (*Batch).close the result of `….discard()` (skipping what is left of the response) is
 // assigned — `x := ….discard()`, `x = ….discard()` or the init of an if — and never dropped as a bare call.  (An assigned
 // but unused variable does not compile.)
@@ -1693,6 +1727,18 @@ func extractConnLegacy(repo, root string) error {
 		return fmt.Errorf("untranslated: %v", err)
 	}
 	fmt.Fprintf(&b, "/-- message_reader.go: discard() rewinds to the root reader; compressed v2 / v1 pushes charge `remain` with what the codec consumed -/\ndef readerStackFacts : KV.ReaderStack.Facts := { discardRewinds := %v, v2AccountsConsumed := %v, v1AccountsConsumed := %v }\n\n", rsf[0], rsf[1], rsf[2])
+	// the state a Conn carries from one operation to the next: the fields of the struct
+	if st := x.structs["Conn"]; st != nil {
+		var fs []string
+		for _, f := range st.Fields.List {
+			for _, n := range f.Names {
+				fs = append(fs, n.Name)
+			}
+		}
+		fmt.Fprintf(&b, "/-- the fields of `type Conn struct` (conn.go): everything a Conn carries from one operation to the next -/\ndef connFields : List String := [%s]\n\n", quoteAll(fs))
+	} else {
+		return fmt.Errorf("untranslated: type Conn struct not found")
+	}
 	hs, err := headerSizes(filepath.Join(repo, "message_reader.go"))
 	if err != nil {
 		return fmt.Errorf("untranslated: %v", err)
@@ -1776,6 +1822,7 @@ func extractConnLegacy(repo, root string) error {
 	fmt.Fprintf(&b, "/-- conn.go ReadBatchWith: at the high watermark (empty reader) the message set of the response is discarded -/\ndef fetchSkipsAtWatermark : Bool := %v\n\n", skips)
 	// which errors close the connection: `if !errors.As(err, &kafkaError) { c.conn.Close() }` in do,
 	// `if !errors.As(err, &kafkaError) && !errors.Is(err, io.ErrShortBuffer) { conn.Close() }` in Batch.close
+	fmt.Fprintf(&b, "/-- (*Conn).loadVersions returns on ANY error of ApiVersions before the version map is built and stored -/\ndef loadVersionsStrict : Bool := %v\n\n", loadVersionsStrict(connFns["loadVersions"]))
 	fmt.Fprintf(&b, "/-- (*Batch).close uses the result of msgs.discard(): a response whose rest cannot be skipped does not end in a kept Conn -/\ndef batchCloseMindsDiscard : Bool := %v\n\n", batchCloseMindsDiscard(connFns["Batch.close"]))
 	fmt.Fprintf(&b, "/-- (*Conn).do / (*Batch).close close the connection exactly on errors that are not kafka errors (Batch: nor io.ErrShortBuffer) -/\ndef doClosesNonKafka : Bool := %v\ndef batchClosesNonKafka : Bool := %v\n\n",
 		closesOnNonKafka(connFns["do"], false), closesOnNonKafka(connFns["Batch.close"], true))
